@@ -29,6 +29,13 @@ def _with_expansion(test, polarity):
     """the literal as written, and -- when it reads local temporaries with a decidable straight-line definition
     (sa/resolve.py) -- the same literal with those temporaries replaced by their definitions"""
     out = [(src(test), polarity, test)]
+    # the complementary spelling of an (in)equality / identity / membership test holds with the opposite polarity:
+    # `p != 0` false is `p == 0` true (exact for ==, is, in; not used for <, >= because of NaN)
+    if isinstance(test, ast.Compare) and len(test.ops) == 1:
+        comp = {ast.Eq: ast.NotEq, ast.NotEq: ast.Eq, ast.Is: ast.IsNot, ast.IsNot: ast.Is, ast.In: ast.NotIn, ast.NotIn: ast.In}.get(type(test.ops[0]))
+        if comp is not None:
+            t2 = ast.Compare(left=test.left, ops=[comp()], comparators=test.comparators)
+            out.append((src(t2), not polarity, test))
     try:
         from . import resolve
         if getattr(test, '_parent', None) is not None:
